@@ -30,12 +30,14 @@ using namespace smt;
 #define MAXR 4
 static int X, Y;
 static bool a[MAXV];
-static int cx[MAXTV], cy[MAXTV]; // meaning of theory variable v: cx[v]*x + cy[v]*y
+static int cx[MAXTV], cy[MAXTV], ck[MAXTV]; // meaning of theory variable v: cx[v]*x + cy[v]*y + ck[v]
+// derived variables z_t = za*x + zb*y + zk created through lra_theory::new_var(lin) (rows with a constant term); a relation with extra >= 100 is over z_(extra-100)
+static const int ZT[4][3] = {{1, 0, 3}, {1, 1, -1}, {-1, 0, 2}, {2, -1, 1}};
 static int ntv;
 static size_t n_defs; // clauses present before the history starts (definitions of conjunction variables)
 
 static inline bool lval(const lit &p) { return sign(p) ? a[variable(p)] : !a[variable(p)]; }
-static inline long tval(var v) { return (long)cx[v] * X + (long)cy[v] * Y; }
+static inline long tval(var v) { return (long)cx[v] * X + (long)cy[v] * Y + ck[v]; }
 // value  <= / >=  bound q + e*eps, for an integer value:   leq: value < q if e < 0, value <= q otherwise;  geq: value > q if e > 0
 static bool sat_leq(long val, const inf_rational &b)
 {
@@ -77,7 +79,7 @@ static bool point_sat_assigned(sat_core &s, lra_theory &th, bool root_only)
 }
 static void note_new_vars(lra_theory &th, int c1, int c2)
 { // a request over c1*x + c2*y may have created one slack variable standing for exactly that expression
-  while (ntv < (int)th.vals.size()) { CHECK(ntv < MAXTV, "harness bound on theory variables"); cx[ntv] = c1; cy[ntv] = c2; ntv++; }
+  while (ntv < (int)th.vals.size()) { CHECK(ntv < MAXTV, "harness bound on theory variables"); cx[ntv] = c1; cy[ntv] = c2; ck[ntv] = 0; ntv++; }
 }
 
 static void check_state(sat_core &s, lra_theory &th)
@@ -178,16 +180,38 @@ __attribute__((noinline)) static void scenario()
   sat_core &s = *new sat_core();
   lra_theory &th = *new lra_theory(s);
   const var x = th.new_var(), y = th.new_var();
-  cx[0] = 1; cy[0] = 0; cx[1] = 0; cy[1] = 1; ntv = 2;
+  cx[0] = 1; cy[0] = 0; cx[1] = 0; cy[1] = 1; ck[0] = ck[1] = 0; ntv = 2;
+  var zvar[4] = {0, 0, 0, 0}; bool zmade[4] = {false, false, false, false};
+  auto ensure_z = [&](int t)
+  {
+    if (zmade[t]) return;
+    lin zl = lin(rational((I)ZT[t][2]));
+    if (ZT[t][0]) zl.vars.emplace(x, rational(ZT[t][0]));
+    if (ZT[t][1]) zl.vars.emplace(y, rational(ZT[t][1]));
+    zvar[t] = th.new_var(zl);
+    while (ntv < (int)th.vals.size()) { CHECK(ntv < MAXTV, "harness bound on theory variables"); cx[ntv] = ZT[t][0]; cy[ntv] = ZT[t][1]; ck[ntv] = ZT[t][2]; ntv++; }
+    zmade[t] = true;
+  };
   const int NR = rdp();
   size_t rl[MAXR]; int rrel[MAXR], rc1[MAXR], rc2[MAXR], rkn[MAXR], rkd[MAXR], rex[MAXR]; bool made[MAXR];
   auto request = [&](int i)
   {
     lin left;
-    if (rc1[i] + rex[i]) left.vars.emplace(x, rational(rc1[i] + rex[i]));
-    if (rc2[i] + rex[i]) left.vars.emplace(y, rational(rc2[i] + rex[i]));
     lin right(rational(rkn[i], rkd[i]));
-    if (rex[i]) { right.vars.emplace(x, rational(rex[i])); right.vars.emplace(y, rational(rex[i])); }
+    int ec1 = rc1[i], ec2 = rc2[i], ekn = rkn[i]; // the relation in terms of x and y:  ec1*x + ec2*y  REL  ekn/kd
+    if (rex[i] >= 100)
+    { // c1*z_t + c2*y REL k, with z_t = za*x + zb*y + zk a variable that is basic in the tableau (its row has a constant term)
+      const int t = rex[i] - 100;
+      if (rc1[i]) left.vars.emplace(zvar[t], rational(rc1[i]));
+      if (rc2[i]) { auto itv = left.vars.find(y); if (itv == left.vars.end()) left.vars.emplace(y, rational(rc2[i])); else itv->second += rational(rc2[i]); }
+      ec1 = rc1[i] * ZT[t][0]; ec2 = rc1[i] * ZT[t][1] + rc2[i]; ekn = rkn[i] - rc1[i] * ZT[t][2] * rkd[i];
+    }
+    else
+    {
+      if (rc1[i] + rex[i]) left.vars.emplace(x, rational(rc1[i] + rex[i]));
+      if (rc2[i] + rex[i]) left.vars.emplace(y, rational(rc2[i] + rex[i]));
+      if (rex[i]) { right.vars.emplace(x, rational(rex[i])); right.vars.emplace(y, rational(rex[i])); }
+    }
     // bounds visible before the request
     inf_rational lb0[MAXTV], ub0[MAXTV]; const size_t nb = th.vals.size();
     for (size_t v = 0; v < nb; v++) { lb0[v] = th.lb(v); ub0[v] = th.ub(v); }
@@ -201,6 +225,7 @@ __attribute__((noinline)) static void scenario()
     default: r = th.new_gt(left, right); break;
     }
     rl[i] = index(r); made[i] = true;
+    rc1[i] = ec1; rc2[i] = ec2; rkn[i] = ekn;
     note_new_vars(th, rc1[i], rc2[i]);
     CHECK(s.assigns.size() <= MAXV, "harness bound on SAT variables");
     for (size_t v = 0; v < nb; v++) CHECK(th.lb(v) == lb0[v] && th.ub(v) == ub0[v], "(R) requesting a literal leaves every earlier bound unchanged");
@@ -221,6 +246,7 @@ __attribute__((noinline)) static void scenario()
   {
     rrel[i] = rdp(); rc1[i] = rdp(); rc2[i] = rdp(); rkn[i] = rdp(); rkd[i] = rdp(); rex[i] = rdp();
     made[i] = false; rl[i] = 0;
+    if (rex[i] >= 100) ensure_z(rex[i] - 100);
     if (rrel[i] >= 10) rrel[i] -= 10; else request(i);
   }
   meaning();
